@@ -31,9 +31,18 @@ class SanitizeUnitsConvert(Contract):
     def result(self, it, a):
         if isinstance(a.possible_units, SObj) and a.possible_units.cls.name == "Unit":
             return a.possible_units
-        raise Unsupported("_sanitize_units_convert of a string (Unit parsing is abstract)")
+        from pyvc.core import is_str
+        if is_str(a.possible_units):
+            # a unit string: the function's own body (Unit(<string>, registry=...), whose parsing
+            # steps are crossed by their contracts)
+            fi = it.repo.func(self.name)
+            return it.run_body(fi, [a.possible_units, a.registry], {})
+        raise Unsupported("_sanitize_units_convert of %r" % (a.possible_units,))
 
     def ensures(self, it, a, r, old):
+        from pyvc.core import is_str
+        if is_str(a.possible_units):
+            return []
         return [("a Unit object is returned as is", r is a.possible_units)]
 
 
@@ -79,7 +88,9 @@ class _Route(Contract):
     def requires(self, it, a):
         P = it.domain.prefix_table(it)
         old = a.self.fields["units"]
-        return [("units consistent with their tables", z3.And(S.unit_wf(old, P), S.unit_wf(a.units, P))),
+        return [("no equivalence= (the equivalence routes have their own contracts)",
+                 getattr(a, "equivalence", None) is None),
+                ("units consistent with their tables", z3.And(S.unit_wf(old, P), S.unit_wf(a.units, P))),
                 ("unit strings non-empty", z3.And(z3.Length(S.ustr(old)) >= 1,
                                                   z3.Length(S.ustr(a.units)) >= 1))]
 
